@@ -3,6 +3,7 @@ package main
 import (
 	"bytes"
 	"encoding/binary"
+	"encoding/json"
 	"errors"
 	"fmt"
 	"os"
@@ -268,7 +269,196 @@ func c11EvalRead(c *Ctx, cs Case) {
 	}
 }
 
+// an Unmarshallable that keeps the bytes it is handed (no copy), as a caller's own decoder may: the value it holds
+// must stay the value of the read that produced it
+type holdValue struct {
+	called bool
+	got    []byte
+}
+
+func (h *holdValue) Unmarshal(b *bytes.Buffer) error {
+	h.called = true
+	h.got = b.Bytes()
+	return nil
+}
+
+type c11SeqVar struct {
+	Name  string `json:"name"`
+	GUID  string `json:"guid"`
+	Attrs int64  `json:"attrs"` // the attributes of the variable definition (required on reading, used on writing)
+	File  string `json:"file"`  // initial file content ("absent": no file)
+}
+
+type c11SeqStep struct {
+	K     string `json:"k"`   // R read, W write
+	Var   int    `json:"var"` // index into vars
+	Via   string `json:"via"` // R: getvar | getvar-attrs | wrapper-guid | wrapper-file | legacy; W: object | legacy
+	Value string `json:"value,omitempty"`
+}
+
+// a sequence of reads (and writes) of several variables through ONE EFIFS / FSWrapper (and the one legacy package-level
+// filesystem), with held results: every value a read returned is kept as it was handed out (the *bytes.Buffer the
+// wrapper-level and legacy readers return, the bytes an Unmarshallable that does not copy was given) and compared, after
+// every later step and at the end, with what the file held when it was read.
+func c11EvalSeq(c *Ctx, cs Case) {
+	dir := cs.S("dir")
+	var vars []c11SeqVar
+	var steps []c11SeqStep
+	vj, _ := json.Marshal(cs["vars"])
+	json.Unmarshal(vj, &vars)
+	sj, _ := json.Marshal(cs["steps"])
+	json.Unmarshal(sj, &steps)
+	c.Count(cs.Key(), len(steps) >= 2, fmt.Sprintf("read-seq/%s/len%d", cs.S("class"), len(steps)))
+	if len(steps) <= 4 {
+		c.Sample(cs)
+	}
+	mem := afero.NewMemMapFs()
+	mem.MkdirAll(dir, 0o755)
+	pathOf := func(v c11SeqVar) string {
+		return dir + "/" + string(unhx(v.Name)) + "-" + canonGUIDText(guidFromWire(unhx(v.GUID)))
+	}
+	for _, v := range vars {
+		if v.File != "absent" {
+			afero.WriteFile(mem, pathOf(v), unhx(v.File), 0o644)
+		}
+	}
+	oldDir := attributes.Efivars
+	attributes.Efivars = dir
+	defer func() { attributes.Efivars = oldDir }()
+	oldFs := efs.Fs
+	efs.SetFS(mem)
+	defer efs.SetFS(oldFs)
+	fw := fswrapper.NewMemoryWrapper()
+	fw.SetFS(mem)
+	e := &efivarfs.EFIFS{FSWrapper: fw}
+	type held struct {
+		step int
+		snap []byte        // the value as it was when the read returned
+		live func() []byte // the value as the caller sees it now
+	}
+	var helds []held
+	var trail []string
+	fail := func(what, goObs, spec string) {
+		c.Fail(Failure{Kind: "property", What: what, Case: cs, Go: clip(goObs + " steps=[" + strings.Join(trail, " ") + "]"), Spec: clip(spec)})
+	}
+	for i, st := range steps {
+		if st.Var < 0 || st.Var >= len(vars) {
+			continue
+		}
+		v := vars[st.Var]
+		name := string(unhx(v.Name))
+		g := guidFromWire(unhx(v.GUID))
+		def := efivar.Efivar{Name: name, GUID: &g, Attributes: attributes.Attributes(uint32(v.Attrs))}
+		if st.K == "W" {
+			var err error
+			pan, msg := safely(func() {
+				if st.Via == "legacy" {
+					err = attributes.WriteEfivarsWithGuid(name, def.Attributes, unhx(st.Value), g)
+				} else {
+					err = e.WriteVar(def, rawValue(unhx(st.Value)))
+				}
+			})
+			trail = append(trail, fmt.Sprintf("%d:W(%s,%dB)", i, name, len(unhx(st.Value))))
+			if pan || err != nil {
+				fail(fmt.Sprintf("step %d: writing a variable on a healthy filesystem failed: %s%v", i, msg, err), "", "ok")
+				return
+			}
+		} else {
+			// what the file holds now, read beside the library
+			stored, rerr := afero.ReadFile(mem, pathOf(v))
+			file := "absent"
+			if rerr == nil {
+				file = hx(stored)
+			}
+			required := uint32(v.Attrs)
+			hv := &holdValue{}
+			var buf *bytes.Buffer
+			var got attributes.Attributes
+			var err error
+			pan, msg := safely(func() {
+				switch st.Via {
+				case "getvar":
+					err = e.GetVar(def, hv)
+					if err == nil && len(stored) >= 4 {
+						got = attributes.Attributes(binary.LittleEndian.Uint32(stored)) // GetVar does not return the mask
+					}
+				case "getvar-attrs":
+					got, err = e.GetVarWithAttributes(def, hv)
+				case "wrapper-guid":
+					required = 0
+					got, buf, err = fw.ReadEfivarsWithGuid(name, g)
+				case "wrapper-file":
+					required = 0
+					got, buf, err = fw.ReadEfivarsFile(pathOf(v))
+				default: // the legacy package-level reader
+					required = 0
+					got, buf, err = attributes.ReadEfivarsWithGuid(name, g)
+				}
+			})
+			trail = append(trail, fmt.Sprintf("%d:R(%s,%s)", i, name, st.Via))
+			if pan {
+				fail(fmt.Sprintf("step %d: reading a variable panicked: %s", i, msg), "", "")
+				return
+			}
+			var live func() []byte
+			if buf != nil {
+				b := buf
+				live = func() []byte { return b.Bytes() }
+			} else if hv.called {
+				live = func() []byte { return hv.got }
+			}
+			obs := "err"
+			switch {
+			case rerr != nil || len(stored) < 4:
+				if err == nil {
+					fail(fmt.Sprintf("step %d: an absent or shorter-than-four-byte file must yield an error", i), "ok", "error")
+				}
+			case required&binary.LittleEndian.Uint32(stored) != required:
+				if !errors.Is(err, efivarfs.ErrIncorrectAttributes) {
+					fail(fmt.Sprintf("step %d: a stored mask lacking a required attribute must fail with the wrong-attributes error", i), fmt.Sprint(err), "ErrIncorrectAttributes")
+				}
+				if hv.called {
+					fail(fmt.Sprintf("step %d: the value was decoded although the attributes are wrong", i), "", "no decoding")
+				}
+			default:
+				mask := binary.LittleEndian.Uint32(stored)
+				if err != nil || live == nil || uint32(got) != mask || !bytes.Equal(live(), stored[4:]) {
+					var now []byte
+					if live != nil {
+						now = live()
+					}
+					fail(fmt.Sprintf("step %d: reading must return the value decoded from the bytes after the first four together with the stored attributes", i), fmt.Sprintf("attrs=%d err=%v value=%s", got, err, hx(now)), fmt.Sprintf("attrs=%d value=%s", mask, hx(stored[4:])))
+					return
+				}
+				obs = fmt.Sprintf("ok attrs=%d value=%s", mask, hx(stored[4:]))
+			}
+			if err == nil && obs == "err" && live != nil {
+				obs = fmt.Sprintf("ok attrs=%d value=%s", got, hx(live()))
+			}
+			c.Trace()
+			m := c.Drv.Ask("fs.read", append(append([]string{hx([]byte(dir)), hx([]byte(name))}, guidArgs(g)...), fmt.Sprint(required), file)...)
+			if m != obs {
+				c.Fail(Failure{Kind: "tie", What: fmt.Sprintf("read sequence, step %d: result differs from the Lean program model", i), Case: cs, Model: clip(m), Go: clip(obs)})
+			}
+			if err == nil && live != nil {
+				helds = append(helds, held{i, append([]byte{}, live()...), live})
+			}
+		}
+		// every value handed out by an earlier read is still the value that was read
+		for _, h := range helds {
+			if now := h.live(); !bytes.Equal(now, h.snap) {
+				fail(fmt.Sprintf("the value returned by the read at step %d changed when step %d (%s) ran: a read must return the value decoded from the bytes the file held, and keep returning it", h.step, i, trail[len(trail)-1]), "now "+hx(now), "still "+hx(h.snap))
+				return
+			}
+		}
+	}
+}
+
 func c11Eval(c *Ctx, cs Case) {
+	if cs.S("op") == "read-seq" {
+		c11EvalSeq(c, cs)
+		return
+	}
 	if cs.S("op") == "read" {
 		c11EvalRead(c, cs)
 	} else {
@@ -407,6 +597,55 @@ func c11Gen(c *Ctx) {
 			c11EvalRead(c, Case{"op": "read", "api": api, "class": "short-or-absent", "dir": dir, "name": hx([]byte(d.name)), "guid": hx(wireGUID(d.guid)), "required": int64(0), "file": short})
 		}
 	}
+	// ---- held results: several variables read (and rewritten) through ONE EFIFS / FSWrapper, through every reader entry
+	// point (GetVar, GetVarWithAttributes with an Unmarshallable that keeps the bytes it is handed; FSWrapper.ReadEfivarsWithGuid,
+	// FSWrapper.ReadEfivarsFile and the legacy attributes.ReadEfivarsWithGuid, whose *bytes.Buffer is kept).  The value a
+	// read returned is the value decoded from the bytes the file held then; it is compared again after every later read
+	// and write (values that grow, shrink, repeat; other variables and the same variable after a new write).
+	vias := []string{"getvar", "getvar-attrs", "wrapper-guid", "wrapper-file", "legacy"}
+	for i := 0; i < c.N(120, 6000); i++ {
+		if c.NFailures() >= 6 {
+			return
+		}
+		nv := 1 + c.Rng.Intn(4)
+		var svars []interface{}
+		for j := 0; j < nv; j++ {
+			d := defs[c.Rng.Intn(len(defs))]
+			d.attrs &^= 0x40 // APPEND_WRITE is an instruction for one write, not a stored attribute
+			mask := d.attrs
+			switch c.Rng.Intn(8) {
+			case 0:
+				mask |= 0x88
+			case 1:
+				mask = d.attrs &^ (d.attrs & -d.attrs) // lacks one required attribute (reads through GetVar* fail)
+			}
+			var val []byte
+			switch c.Rng.Intn(4) {
+			case 0:
+				val = values[vk[c.Rng.Intn(len(vk))]]
+			default:
+				val = randBytes(c, c.Rng.Intn(1+[]int{4, 40, 300, 2000}[c.Rng.Intn(4)]))
+			}
+			file := make([]byte, 4)
+			binary.LittleEndian.PutUint32(file, mask)
+			fh := hx(append(file, val...))
+			if c.Rng.Intn(12) == 0 {
+				fh = []string{"absent", "-", "0700"}[c.Rng.Intn(3)]
+			}
+			svars = append(svars, map[string]interface{}{"name": hx([]byte(fmt.Sprintf("%s%d", d.name, j))), "guid": hx(wireGUID(d.guid)), "attrs": int64(d.attrs), "file": fh})
+		}
+		ns := 2 + c.Rng.Intn(c.P(7, 19))
+		var ssteps []interface{}
+		for j := 0; j < ns; j++ {
+			vi := c.Rng.Intn(nv)
+			if c.Rng.Intn(4) == 0 && j > 0 {
+				ssteps = append(ssteps, map[string]interface{}{"k": "W", "var": vi, "via": []string{"object", "object", "legacy"}[c.Rng.Intn(3)], "value": hx(randBytes(c, c.Rng.Intn(1+[]int{4, 40, 300}[c.Rng.Intn(3)])))})
+				continue
+			}
+			ssteps = append(ssteps, map[string]interface{}{"k": "R", "var": vi, "via": vias[c.Rng.Intn(len(vias))]})
+		}
+		c11EvalSeq(c, Case{"op": "read-seq", "class": fmt.Sprintf("vars%d", nv), "dir": dirs[i%len(dirs)], "vars": svars, "steps": ssteps})
+	}
 	// ---- value sizes: the contract is one write whatever the size of the value (a dbx is tens of kilobytes).  Buffers
 	// (attributes + value) of 2^k-1, 2^k, 2^k+1 bytes around the usual I/O buffer and page sizes, and signature
 	// databases with many entries, through every API, healthy and with the faults above; and read back.
@@ -466,7 +705,7 @@ func c11Gen(c *Ctx) {
 
 func init() {
 	register("C11", &PropDef{
-		Rule:   "every predefined efivar.Efivar (25, each also with APPEND_WRITE added) and random (name, GUID, attribute) definitions x values {empty, boolean, UTF-16 string, signature database, raw} x three efivars directories x the object API (EFIFS over FSWrapper.SetFS) and the legacy attributes.* API (fs.SetFS), on a recording afero.Fs, healthy and with one failing or short call (OpenFile error, Write error, Write one byte short, Write of zero bytes, Close error); reads with stored masks {equal, superset, subset, disjoint} and absent / 0..3-byte files, with a probe value that records whether decoding was attempted. The legacy by-name API (attributes.WriteEfivars / ReadEfivars, which derives the vendor GUID from the name): every predefined definition under the global or image-security-database GUID, the four database names db/dbx/dbt/dbr, and suffix / truncation / case variations of all of them (not database names unless they coincide with one), written (also with APPEND_WRITE and with the faults) and read (also through ReadEfivarsWithGuid) against the file <Name>-<GUID of the definition>. Value sizes: buffers of 2^k-1, 2^k, 2^k+1 bytes (k = 9, 12, 13, 16; thorough also 15) and SHA-256 databases of 100 / 400 / 1000 (thorough 3000) entries through every API, healthy and faulted, and read back. Every case is non-trivial; distinct = distinct cases.",
+		Rule:   "every predefined efivar.Efivar (25, each also with APPEND_WRITE added) and random (name, GUID, attribute) definitions x values {empty, boolean, UTF-16 string, signature database, raw} x three efivars directories x the object API (EFIFS over FSWrapper.SetFS) and the legacy attributes.* API (fs.SetFS), on a recording afero.Fs, healthy and with one failing or short call (OpenFile error, Write error, Write one byte short, Write of zero bytes, Close error); reads with stored masks {equal, superset, subset, disjoint} and absent / 0..3-byte files, with a probe value that records whether decoding was attempted. The legacy by-name API (attributes.WriteEfivars / ReadEfivars, which derives the vendor GUID from the name): every predefined definition under the global or image-security-database GUID, the four database names db/dbx/dbt/dbr, and suffix / truncation / case variations of all of them (not database names unless they coincide with one), written (also with APPEND_WRITE and with the faults) and read (also through ReadEfivarsWithGuid) against the file <Name>-<GUID of the definition>. Value sizes: buffers of 2^k-1, 2^k, 2^k+1 bytes (k = 9, 12, 13, 16; thorough also 15) and SHA-256 databases of 100 / 400 / 1000 (thorough 3000) entries through every API, healthy and faulted, and read back. Held results: sequences of 2..8 (thorough ..20) reads and writes of 1..4 variables (values of 0..2000 bytes that grow, shrink and repeat; masks equal / superset / lacking a required attribute; absent and short files) through ONE EFIFS / FSWrapper and the one legacy filesystem, every read through one of GetVar and GetVarWithAttributes (with an Unmarshallable that keeps the bytes it is handed, without copying), FSWrapper.ReadEfivarsWithGuid, FSWrapper.ReadEfivarsFile and attributes.ReadEfivarsWithGuid (the returned *bytes.Buffer is kept): each read is compared with the bytes the file holds at that moment and with the Lean model, and every value handed out by an earlier read is compared again after every later read and write (of another variable, or of the same one after a new write) and must still be the value that was read. Every case is non-trivial; distinct = distinct cases.",
 		Assume: []string{"variable names contain no '/' and the efivars directory is a clean absolute path (path.Join would otherwise rewrite them)", "the legacy writer additionally probes the immutable flag of the same path on the real OS filesystem (attr.IsImmutable); that probe is outside the recorded afero.Fs and is noted, not checked"},
 		Eval:   c11Eval, Gen: c11Gen,
 	})
